@@ -57,8 +57,14 @@ def run(ctx):
     scope, nm = _railrules.reject_stop(ctx, "C01.d.reject-stop", ("input", "generic", "retrieval"))
     ctx.stat("blocking_flows_in_scope", len(scope))
     ctx.floor("C01.d.reject-stop", "nemoguardrails/library", "rejection markers in input/generic/retrieval rails", nm, 20)
+    nr = _railrules.refusal_defined(ctx, "C01.d.refusal-defined", ("input", "generic", "retrieval"))
+    ctx.floor("C01.d.refusal-defined", "nemoguardrails/library", "refusal intents of blocking Colang 1.0 rails", nr, 10)
     d_python(ctx)
     e_v2(ctx)
+    c_rewrite_carried(ctx)
+    a_pending_message(ctx)
+    c_passthrough_history(ctx)
+    _railrules.context_globals(ctx, "C01.e.context-globals", ("input", "retrieval", "generic"))
 
 
 # ---------------------------------------------------------------------------------
@@ -559,3 +565,84 @@ def b_param_binding(ctx, rule="C01.b.param-binding"):
         ctx.check(rule, rel, "_call_subflow", first_line(g), ok and bool(slide),
                   "all parameters of a parameterised rail id (e.g. `content safety check input $model=a`) are written to the context unconditionally before the rail flow starts" if ok else
                   "parameters of a parameterised rail id are not written unconditionally: a second rail `... $model=b` runs with the first rail's value, so the configured rail list is not what runs", line=g.lineno)
+
+
+FL1 = "nemoguardrails/colang/v1_0/runtime/flows.py"
+LR = "nemoguardrails/rails/llm/llmrails.py"
+
+
+def c_rewrite_carried(ctx):
+    """An input rail rewrites the message with `$user_message = ...`.  slide() records the assignment in `state.context_updates`, and compute_next_steps turns the
+    updates that exist AFTER THE LAST replayed event into a ContextUpdate event.  The interpreter builds a new State per event, so the pending updates survive a batch
+    of several events (an action result followed by the events the action returned) only if every new State inherits them."""
+    t = ctx.tree.ast(FL1)
+    fn = find_function(t, "compute_next_state")
+    steps = find_function(t, "compute_next_steps")
+    if fn is None or steps is None:
+        raise AnalysisError("compute_next_state / compute_next_steps not found", anchor=FL1 + "::compute_next_state")
+    cons = [c for c in walk_no_nested(fn) if isinstance(c, ast.Call) and src(c.func) == "State"]
+    ctx.floor("C01.c.rewrite-carried", FL1, "State(...) constructions in compute_next_state", len(cons), 1)
+    # alternative: compute_next_steps accumulates the updates itself over the replay loop
+    accum = any(isinstance(l, ast.For) and any(isinstance(c, ast.Call) and isinstance(c.func, ast.Attribute) and c.func.attr == "update" and "context_updates" in src(c) for c in ast.walk(l))
+                for l in walk_no_nested(steps))
+    for c in cons:
+        kw = [k for k in c.keywords if k.arg == "context_updates"]
+        inherits = bool(kw) and "context_updates" in src(kw[0].value) and "state" in src(kw[0].value)
+        # or assigned right after the construction
+        tgt = c._parent.targets[0].id if isinstance(getattr(c, "_parent", None), ast.Assign) and isinstance(c._parent.targets[0], ast.Name) else None
+        later = tgt is not None and any(
+            (isinstance(a, ast.Assign) and src(a.targets[0]) == tgt + ".context_updates" and "state.context_updates" in src(a.value)) or
+            (isinstance(a, ast.Call) and src(a.func) == tgt + ".context_updates.update" and a.args and "state.context_updates" in src(a.args[0]))
+            for a in walk_no_nested(fn))
+        ok = inherits or later or accum
+        ctx.check("C01.c.rewrite-carried", FL1, "compute_next_state", first_line(c, 60), ok,
+                  "the state built for the next event inherits the context updates that have not been emitted yet" if ok else
+                  "the state built for every replayed event starts with empty context_updates and only the updates of the LAST event are emitted: `$user_message = ...` executed while "
+                  "InternalSystemActionFinished is replayed is lost when the action also returned events (ActionResult.events) - later rails, UserMessage.text and the LLM prompt carry the original text",
+                  line=c.lineno)
+
+
+def a_pending_message(ctx):
+    """`generate(messages=[...])`: only a user message that has ALREADY BEEN ANSWERED may be replayed as processed (UtteranceUserActionFinished + UserMessage).  The newest
+    user message must reach the input rails even when it is followed by an `event`/`system`/`context` element: the synthesized UserMessage must be conditional on a later
+    assistant message, not on the position in the list."""
+    t = ctx.tree.ast(LR)
+    fn = find_function(t, "_get_events_for_messages")
+    if fn is None:
+        raise AnalysisError("_get_events_for_messages not found", anchor=LR + "::_get_events_for_messages")
+    n = 0
+    for d in ast.walk(fn):
+        if not (isinstance(d, ast.Dict) and any(isinstance(v, ast.Constant) and v.value == "UserMessage" for v in d.values)):
+            continue
+        n += 1
+        guards = [g for g in _anc(d, fn) if isinstance(g, ast.If)]
+        # the innermost guard that is not the role dispatch
+        cond = [g for g in guards if "role" not in src(g.test) or "assistant" in src(g.test)]
+        txt = " ".join(src(g.test) for g in cond)
+        by_answer = "assistant" in txt
+        by_position = bool(re.search(r"\bidx\b|len\(", txt)) and not by_answer
+        ok = by_answer or not cond and False
+        ctx.check("C01.a.pending-message", LR, qualname(fn), "synthesized UserMessage", by_answer,
+                  "a user message is replayed as already processed only if an assistant message follows it" if by_answer else
+                  "the UserMessage event is synthesized for every user message that is %s: the newest, unanswered message followed by an `event` or `system` element skips the input rails and "
+                  "reaches the dialog/generation LLM call unchecked" % ("not the last element of the list" if by_position else "guarded by `%s`" % txt), line=d.lineno)
+    ctx.floor("C01.a.pending-message", LR, "synthesized UserMessage events", n, 1)
+
+
+def c_passthrough_history(ctx):
+    """Passthrough mode sends the caller's message list to the LLM.  The rails' rewritten text exists only in the UserMessage events; every user message of the list
+    that a rail rewrote in its turn must be replaced, not only the last one."""
+    t = ctx.tree.ast(GEN1)
+    n = 0
+    for fn in functions(t):
+        stores = [a for a in walk_no_nested(fn) if isinstance(a, ast.Assign) and isinstance(a.targets[0], ast.Subscript) and isinstance(a.targets[0].slice, ast.Constant)
+                  and a.targets[0].slice.value == "content" and _is_rewritten_text(a.value)]
+        for a in stores:
+            n += 1
+            inner = a.targets[0].value
+            only_last = isinstance(inner, ast.Subscript) and src(inner.slice) == "-1" and not any(isinstance(p_, (ast.For, ast.While)) for p_ in _anc(a, fn))
+            ctx.check("C01.c.passthrough-history", GEN1, qualname(fn), first_line(a, 60), not only_last,
+                      "every user message of the raw request is replaced by its rewritten text" if not only_last else
+                      "only the LAST message of the raw request is overwritten with the rails' rewritten text: in a multi-turn passthrough conversation the earlier user messages are sent "
+                      "to the LLM as typed, although an input rail masked/rewrote them in their own turn", line=a.lineno)
+    ctx.floor("C01.c.passthrough-history", GEN1, "stores of the rewritten text into the raw request", n, 1)
